@@ -55,6 +55,16 @@ CLAIMED = {
             "exploration",
             "Values, returned lengths, bytes and positions must be identical; bits_read must equal the bare reader's bit_pos delta and bits_written the measured bits appended after every step; after a flush both consistent readings of the counter are accepted.",
             TRUST, "DESIGN.md §4 C14"),
+    "C15": ("deterministic simulation of thread schedules: shuttle (seeded random and PCT schedulers, replayable schedule) runs 2-4 simulated threads plus an observer on one shared CodesStatsWrapper whose Mutex is shuttle's through a cfg-guarded import; snapshots are checked as bitmask-identified subsets with real-time order; totals against real encoded sizes",
+            "exploration",
+            "Per case 20 (quick) / 60 (thorough) schedules: every snapshot must be the exact sum over the subset of updates named by its unary bitmask (no torn update), contain all updates completed before it and none invoked after it; after join every per-code total equals the real encoded size measured from the writer's output (pins the index->parameter mapping); merged partial statistics (add, +=, +, sum, multiplicities) equal the union; best_code has the minimum total and its real cost. A failing schedule is pinned in the replay file.",
+            "Trusts shuttle's scheduler and Mutex model; the only lock in the crate is the one replaced through the hook. Sizes for (code, value) pairs with unary parts above 20000 bits are not measured.",
+            "DESIGN.md §4 C15"),
+    "C19": ("deterministic configuration replay: the same seeded histories of families C01 C02 C03 C05 C07 C08 C12 C14 (clean arguments) are executed by 6 (quick) / 8 (thorough) builds of the crate (features default/checks/no_copy_impls/both x release/debug-assertions+overflow-checks) and the per-run event-log digests are diffed; exhaustive C19W family for the checks assertion",
+            "exploration",
+            "Any difference between builds in the digest of the complete event log (returns, bytes, lengths, positions, Ok/Err) of any run, or a panic in one build only, is a violation, minimised on the pair of builds. C19W enumerates every (endianness, word, width n, dirty bit b>=n) and clean arguments: write_bits must panic iff checks is on and the argument is dirty.",
+            "Relies on the simulator being deterministic (selftest determinism); clean arguments only; u8 readers without tables (recorded known finding).",
+            "DESIGN.md §4 C19"),
     "C18": (SIM + " with fault injection: vbyte_read*/vbyte_write* over SimDisk (short transfers, Interrupted, Ok(0), hard errors, full device, truncation inside a value) vs. the bit-stream VByte traits; decode/re-encode of random terminated strings",
             "fault_enumeration",
             "Device bytes == bit-stream image bytes; lengths follow the completeness steps; decode(encode(v)) = v; encode(decode(s)) = s; generic entry = named variant; benign faults invisible; EOF or error inside a value is Err, never a value.",
